@@ -92,6 +92,17 @@ def check_value(v: str, d: str, kind: str, opts: dict, strict=False):
             if ok:
                 return "ok", None, None
             return "fail", f"{kind}|{d or 'base'}", f"{kind} {v!r} ({d or 'base'}, {opts}) -> {sql!r} lexes as {[(t.token_type.name, t.text) for t in toks][:4]}"
+        if kind in ("ident-temp", "ident-global-temp"):
+            # T-SQL / Fabric: a quoted identifier flagged as (global) temporary object is written [#name] / [##name]
+            if v == "" or d not in ("tsql", "fabric"):
+                return "ood", None, None
+            marker = "#" if kind == "ident-temp" else "##"
+            node = exp.Identifier(this=v, quoted=True, **{"temporary" if kind == "ident-temp" else "global_": True})
+            sql = node.sql(dialect=dd, unsupported_level=IGN, **opts)
+            toks = _tok(d, sql)
+            if len(toks) == 1 and toks[0].token_type in (TokenType.IDENTIFIER, TokenType.VAR) and toks[0].text == marker + v:
+                return "ok", None, None
+            return "fail", f"{kind}|{d or 'base'}", f"{kind} {v!r} ({d or 'base'}, {opts}) -> {sql!r} lexes as {[(t.token_type.name, t.text) for t in toks][:4]}"
         if kind in ("column", "where"):
             def build(x):
                 if kind == "column":
@@ -159,10 +170,18 @@ def exhaustive(res, alpha, length, part, parts):
         if i % parts != part:
             continue
         for v in vals:
-            for kind in ("string", "ident-quoted"):
+            for kind in ("string", "ident-quoted") + (("ident-temp", "ident-global-temp") if d in ("tsql", "fabric") else ()):
                 st_, b, det = check_value(v, d, kind, {})
                 _record(res, v, d, kind, {}, st_, b, det)
                 n += 1
+        # auto-quoted identifiers: the decision "safe to emit bare" is where a harmless-looking name with ONE odd character at
+        # either end (trailing newline, leading digit, NUL ...) slips through: every token of the alphabet before / after a word
+        for a in alpha if length <= 2 else ():
+            for v in ("abc" + a, a + "abc", "A" + a, "a_1" + a):
+                for kind in ("ident-auto", "column"):
+                    st_, b, det = check_value(v, d, kind, {})
+                    _record(res, v, d, kind, {}, st_, b, det)
+                    n += 1
     res.extra["exhaustive_cells"] = n
 
 
